@@ -185,7 +185,7 @@ func main() {
 	// limit and little parallelism (solver time varies with machine load; an undecided query is not a refutation)
 	var retry []*Obligation
 	for _, ob := range all {
-		if ob.Kind == "proof" && ob.Result != "unsat" && ob.Result != "sat" && ob.SMT != "" {
+		if ob.Kind == "proof" && ob.Result != "unsat" && ob.Result != "sat" && ob.Result != "error" && ob.SMT != "" {
 			ob.Result = ""
 			retry = append(retry, ob)
 		}
@@ -243,6 +243,9 @@ func main() {
 			continue
 		}
 		nProof++
+		if ob.Seconds > 5 && os.Getenv("GOVC_SLOW") != "" {
+			fmt.Fprintf(os.Stderr, "slow: %s %.1fs %s %s\n", ob.Name, ob.Seconds, ob.Result, ob.Solver)
+		}
 		if ob.Result == "unsat" {
 			nDis++
 			byBackend[ob.Solver]++
@@ -484,6 +487,11 @@ func solve(obs []*Obligation, timeout int, par int) {
 						ob.Model = getModel(s, file, ob.SMT, timeout)
 					}
 					_ = out
+					break
+				}
+				if res == "error" && strings.HasPrefix(s.name, "z3") {
+					// z3 rejects the query itself (undeclared symbol, sort mismatch): an engine defect, not a verdict
+					ob.Result, ob.Solver, ob.Model = "error", s.name, out
 					break
 				}
 				if ob.Result == "" || ob.Result == "error" {
